@@ -68,7 +68,11 @@ func (s srcSym) bytes() []byte {
 }
 
 // well-formed streams: EXEC only inside MULTI, no nested MULTI, no SELECT inside MULTI
-func syncWellFormed(word []int) bool {
+func syncWellFormed(word []int) bool { return syncWellFormedTx(word, false) }
+
+// syncWellFormedTx: with selectInTx a transaction may change the database (the master emits a
+// SELECT inside MULTI..EXEC when a transaction or script touches several databases)
+func syncWellFormedTx(word []int, selectInTx bool) bool {
 	in := false
 	for _, w := range word {
 		switch syncSigma[w].Name {
@@ -83,7 +87,7 @@ func syncWellFormed(word []int) bool {
 			}
 			in = false
 		case "SELECT0", "SELECT1", "select2":
-			if in {
+			if in && !selectInTx {
 				return false
 			}
 		}
@@ -101,6 +105,9 @@ type syncConfig struct {
 	SenderSize  uint64 `json:"sender_size"`
 	StartDb     int    `json:"start_db"`
 	StartOffset int64  `json:"start_offset"`
+	// Pauses adds a fourth environment answer before every segment: 300 ms without traffic
+	// (shorter than the sender's 500 ms flush period), to produce trickling streams
+	Pauses bool `json:"pauses,omitempty"`
 }
 
 func (c syncConfig) apply() {
@@ -225,6 +232,15 @@ type syncResult struct {
 	Snapshot string
 	Steps    []string
 	srv      *mredis.Server
+	// DeliveredAt[i]: fake time at which source segment i was completely delivered; Timeline: the
+	// number of non-bookkeeping commands the target had applied at each quiescent point
+	DeliveredAt []time.Duration
+	Timeline    []syncPoint
+}
+
+type syncPoint struct {
+	At      time.Duration
+	Applied int
 }
 
 // the metric object starts goroutines that never end: create it outside of any bubble
@@ -287,12 +303,30 @@ func syncExecuteWith(t *testing.T, cfg syncConfig, segs [][]byte, srv *mredis.Se
 			go ds.parseSourceCommand(bufio.NewReaderSize(sc, 4096))
 			go ds.sendTargetCommand(c)
 			synctest.Wait()
+			t0 := time.Now()
+			nchoices := 3
+			if cfg.Pauses {
+				nchoices = 4
+			}
+			point := func() {
+				n := 0
+				for _, a := range srv.Applied() {
+					if !syncIsOwn(a) {
+						n++
+					}
+				}
+				res.Timeline = append(res.Timeline, syncPoint{At: time.Since(t0), Applied: n})
+			}
 			for i := 0; i < len(segs); {
-				switch ch.Choose(3) {
+				switch ch.Choose(nchoices) {
 				case 0:
 					ss.Write(segs[i])
 					res.Steps = append(res.Steps, fmt.Sprintf("deliver %d", i))
+					res.DeliveredAt = append(res.DeliveredAt, time.Since(t0))
 					i++
+				case 3:
+					time.Sleep(300 * time.Millisecond)
+					res.Steps = append(res.Steps, "pause 300ms")
 				case 1:
 					time.Sleep(500 * time.Millisecond)
 					res.Steps = append(res.Steps, "tick")
@@ -302,13 +336,18 @@ func syncExecuteWith(t *testing.T, cfg syncConfig, segs [][]byte, srv *mredis.Se
 					synctest.Wait()
 					ss.Write(segs[i][h:])
 					res.Steps = append(res.Steps, fmt.Sprintf("deliver %d in halves", i))
+					res.DeliveredAt = append(res.DeliveredAt, time.Since(t0))
 					i++
 				}
 				synctest.Wait()
+				point()
 			}
 			// the stream goes idle: everything must be flushed within bounded time
-			time.Sleep(1100 * time.Millisecond)
-			synctest.Wait()
+			for k := 0; k < 11; k++ {
+				time.Sleep(100 * time.Millisecond)
+				synctest.Wait()
+				point()
+			}
 			res.Received = srv.Received()
 			res.Applied = srv.Applied()
 			res.Snapshot = srv.Snapshot()
